@@ -212,3 +212,13 @@ func l3ShellSafe(ss ...string) bool {
 	}
 	return true
 }
+
+func l3ASCIIUpper(s string) string {
+	b := []byte(s)
+	for i, x := range b {
+		if 'a' <= x && x <= 'z' {
+			b[i] = x - 32
+		}
+	}
+	return string(b)
+}
